@@ -35,6 +35,14 @@ func checkC01(p *Prog, r *Report) {
 			checkSeparatorOutsideComponents(p, r, func(rule, rest string) string { return rule + ":C01:" + rest }, sep)
 		}
 	}
+	// a record's genesis key string binds every position to its own field and parses back to the same offset
+	if ck := p.Iface(Rel(compkeyPkg), "CompositeKey"); ck != nil {
+		for _, kt := range p.ImplementersOf(ck) {
+			checkTypedKey(p, r, func(rule, rest string) string { return rule + ":C01:" + rest }, kt)
+		}
+	}
+	// "forever" includes restarts: the keeper's store is a committed one
+	checkPersistentStoresOnly(p, r, func(rule, rest string) string { return rule + ":C01:" + rest }, "records kept there are gone after a restart")
 	wireAolStore(p, r, "C01")
 	checkInitGenesisCallers(p, r, "C01", "x/aol")
 	r.Floor("in-loop-decode-targets(x/aol)", checkLoopFreshDecode(p, r, "C01", func(fn *ssa.Function) bool { return InPkgs(fn, "x/aol/keeper", "x/aol/types") }), 2)
